@@ -1,0 +1,27 @@
+// Verification hook, compiled only with `--cfg tokio_rs_bytes_verif` (off by default).
+//
+// Same shape as `loom.rs`: it points the crate's atomics at the scheduler-owned
+// atomics of an external deterministic simulator, so that every atomic access in
+// `bytes.rs` / `bytes_mut.rs` becomes a point where the simulator decides which task
+// runs next. The simulator builds this crate through a shadow manifest that provides
+// the `bytes_verif_rt` dependency; nothing else in the crate refers to it.
+pub(crate) mod sync {
+    pub(crate) mod atomic {
+        pub(crate) use ::bytes_verif_rt::atomic::{AtomicPtr, AtomicUsize, Ordering};
+
+        pub(crate) trait AtomicMut<T> {
+            fn with_mut<F, R>(&mut self, f: F) -> R
+            where
+                F: FnOnce(&mut *mut T) -> R;
+        }
+
+        impl<T> AtomicMut<T> for AtomicPtr<T> {
+            fn with_mut<F, R>(&mut self, f: F) -> R
+            where
+                F: FnOnce(&mut *mut T) -> R,
+            {
+                f(self.get_mut())
+            }
+        }
+    }
+}
